@@ -647,3 +647,108 @@ Example delivery_example :
   /\ receive {| via := Post; dest := DPost; sealed := []; resp := two |} = NoId
   /\ receive {| via := Post; dest := DPost; sealed := [true; true]; resp := two |} = NoId.
 Proof. vm_compute. repeat split; reflexivity. Qed.
+
+(* ---- the configuration: how allow_unsolicited is written ---- *)
+(* the code's word lists are the spec's *)
+Lemma words_agree : init_yes_words = yes_words /\ init_no_words = no_words.
+Proof. split; reflexivity. Qed.
+
+(* the receiver runs with exactly what the option says; an option that says nothing definite builds no receiver *)
+Lemma effective_allow_is_meaning o : effective_allow o = meaning o.
+Proof.
+  destruct o as [| |c|s|n]; try reflexivity.
+  unfold effective_allow, load_special_val.
+  destruct (String.eqb_spec s "true") as [->|Ht]; [reflexivity|].
+  destruct (String.eqb_spec s "false") as [->|Hf]; [reflexivity|].
+  cbn [client_init_val meaning]. unfold says_yes, says_no.
+  change init_yes_words with yes_words. change init_no_words with no_words.
+  destruct (mem (lower (strip s)) yes_words); [reflexivity|].
+  destruct (mem (lower (strip s)) no_words); reflexivity.
+Qed.
+
+Lemma option_read_as_written o b : meaning o = Some b -> effective_allow o = Some b.
+Proof. intros H. rewrite effective_allow_is_meaning. exact H. Qed.
+
+Lemma c06_configured_holds s y : spec_c s y (receive_cfg s y).
+Proof.
+  intros b Hb. unfold receive_cfg. rewrite (option_read_as_written _ _ Hb). apply c06_delivery_holds.
+Qed.
+
+(* a set-up whose option says nothing definite yields no identity, whatever is delivered *)
+Lemma undefined_option_no_identity s y : meaning (opt s) = None -> receive_cfg s y = NoId.
+Proof. intros H. unfold receive_cfg. rewrite effective_allow_is_meaning, H. reflexivity. Qed.
+
+(* -- the pinned state before 6bdc97cd *)
+Lemma effective_allow_v0_str s :
+  effective_allow_v0 (OStr s) = if String.eqb s "true" then true else if String.eqb s "false" then false else negb (is_empty s).
+Proof.
+  unfold effective_allow_v0, load_special_val.
+  destruct (String.eqb s "true") eqn:Ht; [reflexivity|].
+  destruct (String.eqb s "false") eqn:Hf; [reflexivity|].
+  unfold client_init_val_v0. rewrite Ht. reflexivity.
+Qed.
+
+(* outside the class C06-F4 the old receiver ran with what the option says *)
+Lemma option_read_as_written_v0 o b : misread o = false -> meaning o = Some b -> effective_allow_v0 o = b.
+Proof.
+  destruct o as [| |c|s|n]; cbn [misread meaning]; intros Hm Hb.
+  - injection Hb as <-. reflexivity.
+  - injection Hb as <-. reflexivity.
+  - injection Hb as <-. reflexivity.
+  - rewrite effective_allow_v0_str.
+    destruct (String.eqb_spec s "true") as [->|Ht].
+    + vm_compute in Hb. injection Hb as <-. reflexivity.
+    + destruct (String.eqb_spec s "false") as [->|Hf].
+      * vm_compute in Hb. injection Hb as <-. reflexivity.
+      * destruct (says_yes s) eqn:Hy.
+        -- injection Hb as <-. destruct s; [vm_compute in Hy; discriminate Hy | reflexivity].
+        -- destruct (says_no s) eqn:Hn; [|discriminate Hb]. injection Hb as <-.
+           cbn [andb negb] in Hm. destruct (is_empty s); [reflexivity | discriminate Hm].
+  - injection Hb as <-. reflexivity.
+Qed.
+
+Lemma c06_configured_v0_holds s y : misread (opt s) = false -> spec_c s y (receive_cfg_v0 s y).
+Proof.
+  intros Hm b Hb. unfold receive_cfg_v0. rewrite (option_read_as_written_v0 _ _ Hm Hb). apply c06_delivery_holds.
+Qed.
+
+(* the documented spellings (absent, None, booleans, "true" / "false") and numbers are read as documented *)
+Lemma documented_effective :
+  effective_allow OAbsent = Some false /\ effective_allow ONone = Some false /\ (forall b, effective_allow (OBool b) = Some b)
+  /\ effective_allow (OStr "true") = Some true /\ effective_allow (OStr "false") = Some false
+  /\ effective_allow (OInt 0) = Some false /\ effective_allow (OInt 1) = Some true.
+Proof. repeat split; reflexivity. Qed.
+
+(* how the configuration object was made does not enter the decision *)
+Lemma loader_irrelevant o h1 h2 y : receive_cfg {| opt := o; how := h1 |} y = receive_cfg {| opt := o; how := h2 |} y.
+Proof. reflexivity. Qed.
+
+(* C06-F4 (fixed by 6bdc97cd): allow_unsolicited: "False" - an unsolicited Response was turned into identity *)
+Definition unsolicited_post : delivery :=
+  {| via := Post; dest := DPost; sealed := [];
+     resp := {| allow_unsolicited := false; outstanding := [("req-1", "/ctx1")]; irt := Some "unknown-9";
+                version := (2, 0); status_top := SUCCESS; status_second := None;
+                assertions := [{| n_authn := 1; subject := Some [Data (Some "unknown-9")] |}] |} |}.
+
+Lemma misread_option_v0_refuted :
+  exists s y, misread (opt s) = true /\ meaning (opt s) = Some false /\ ~ spec_c s y (receive_cfg_v0 s y).
+Proof.
+  exists {| opt := OStr "False"; how := LSPConfig |}, unsolicited_post.
+  split; [reflexivity|]. split; [reflexivity|].
+  intros H. specialize (H false eq_refl). destruct H as (Hc & _).
+  destruct (Hc eq_refl eq_refl None) as (i & ctx & Hi & Hl & _); [vm_compute; reflexivity|].
+  cbn in Hi. injection Hi as <-. vm_compute in Hl. discriminate Hl.
+Qed.
+
+(* ... the same Response is refused now under every way of not allowing it, "False" included, accepted (without
+   request context) under the ways of allowing it, and an option that says nothing definite builds no receiver *)
+Example configured_example :
+  let at_ o := receive_cfg {| opt := o; how := LSPConfig |} unsolicited_post in
+  at_ OAbsent = NoId /\ at_ ONone = NoId /\ at_ (OBool false) = NoId /\ at_ (OStr "false") = NoId /\ at_ (OInt 0) = NoId
+  /\ at_ (OStr "") = NoId /\ at_ (OStr "False") = NoId /\ at_ (OStr " no ") = NoId /\ at_ (OStr "0") = NoId
+  /\ at_ (OBool true) = Identity None /\ at_ (OStr "true") = Identity None /\ at_ (OInt 1) = Identity None
+  /\ at_ (OStr "YES") = Identity None
+  /\ at_ (OStr "maybe") = NoId
+  /\ receive_cfg_v0 {| opt := OStr "False"; how := LSPConfig |} unsolicited_post = Identity None
+  /\ receive_cfg_v0 {| opt := OStr "maybe"; how := LSPConfig |} unsolicited_post = Identity None.
+Proof. vm_compute. repeat split; reflexivity. Qed.
